@@ -327,6 +327,7 @@ def run(tier, replay=None):
     run_bar_order(chk, F)
     run_transposed_u_undo(chk, F)
     run_overlay_counter(chk, F)
+    run_position_dictionary(chk, F)
     chk.assumptions += ['clang 14 parser; template patterns', 'U is stored transposed for Z2: a column addition on R '
                         'is mirrored by add_to with exchanged indices or by one pushed entry']
     return chk
@@ -529,6 +530,8 @@ def run_transposed_u_undo(chk, F):
     ok = False
     order_ok = False
     seen_erase = False
+    par_rl = ir.parents(rl['body'])
+    conditional = None
     for x in ir.walk(rl['body']):
         if x.get('k') in ('ForStmt', 'WhileStmt', 'CXXForRangeStmt'):
             for y in ir.walk(x.get('body')):
@@ -536,9 +539,22 @@ def run_transposed_u_undo(chk, F):
                         and ir.call_args(y) and removed in ir.show(ir.call_args(y)[-1]):
                     ok = True
                     seen_erase = True
+                    # the sweep runs for every removed cell: it is not under a run-time condition
+                    cur = x
+                    while id(cur) in par_rl:
+                        cur = par_rl[id(cur)]
+                        if cur.get('k') == 'IfStmt' and not cur.get('constexpr'):
+                            conditional = cur
         if ir.is_call(x) and ir.call_name(x) == 'remove_last' and 'mirrorMatrixU_' in ir.show(x):
             order_ok = seen_erase
     w = writers[0]
+    if ok and order_ok and conditional is not None:
+        chk.ob('E2-U-undo', 'RU_matrix::remove_last erases the row of the removed cell from the stored columns of U '
+               'for every removed cell', where, False, 'the sweep only runs when `%s`: %s writes a row entry for '
+               'every column it adds, whatever the sign of the reduced cell (a negative cell reduced by at least one '
+               'addition leaves entries behind)' % (ir.show(conditional.get('cond'))[:100], w[0]['name']),
+               key='E2|RU_matrix::remove_last|U-undo')
+        return
     chk.ob('E2-U-undo', 'RU_matrix::remove_last erases the row of the removed cell from the stored columns of U '
            '(written by %s, line %s)' % (w[0]['name'], w[1].get('l')), where, ok and order_ok,
            '' if ok and order_ok else ('%s writes an entry of the reduced cell\'s row into %s, a stored column that '
@@ -689,3 +705,47 @@ def run_dimension_overwrite(chk, F, only_unit=None, min_count=2):
                    'is replaced' % d, key='E10|%s::%s|dimension-kept|%s' % (f['clsname'], f['name'], x.get('l') if False
                                                                            else ir.show(x['c'][1])[:40]))
     chk.expect_count('E10-dimension-kept', 'assignments to a Dimension parameter', n, min_count)
+
+
+# ------------------------------------------------------------------ E2n a freed position leaves the bar dictionary
+
+def run_position_dictionary(chk, F):
+    """E2n: with removable columns the chain barcode is a list and _indexToBar() maps positions to its bars. The
+    insertions register a position with try_emplace, which keeps an existing key: every path of
+    Chain_matrix::_remove_last that gives a position back (`--_nextPosition()`) therefore erases that position's entry
+    exactly once - a stale key would make the next cell inserted at that position write into the old bar."""
+    fs = [f for f in F.functions if f.get('clsname') == 'Chain_matrix' and f['name'] == '_remove_last' and
+          f.get('inst') in (0, 2) and f.get('body') is not None]
+    if len(fs) != 1:
+        raise AnalysisBroken('C05: Chain_matrix::_remove_last not found')
+    f = fs[0]
+
+    def cl(x):
+        t = ir.show(x).replace(' ', '')
+        if x.get('k') == 'UnaryOperator' and x.get('op') == '--' and '_nextPosition()' in t:
+            return ['FREE']
+        if ir.is_call(x) and ir.call_name(x) == 'erase' and t.startswith('_indexToBar()'):
+            return ['DROP']
+        return []
+    ps = paths.enumerate_paths(f, cl, loop_mode='01', keep_conds=True, cap=20000)
+    bad = None
+    n = 0
+    for p in ps:
+        if p.end == 'throw':
+            continue
+        tags = p.tags()
+        if 'FREE' not in tags:
+            continue
+        n += 1
+        if tags.count('DROP') != tags.count('FREE') and bad is None:
+            bad = p
+    if n == 0:
+        raise AnalysisBroken('C05: Chain_matrix::_remove_last no longer gives a position back')
+    chk.count('chain removal paths freeing a position', n)
+    chk.ob('E2n-position-dictionary', 'Chain_matrix::_remove_last erases the dictionary entry of the position it gives '
+           'back on every path (%d paths)' % n, '%s:%d' % (rel(f['file']), f['line']), bad is None,
+           '' if bad is None else 'a path decrements _nextPosition() and erases %d entries of _indexToBar(): the '
+           'position stays registered, try_emplace of the next insertion keeps the stale bar [decisions: %s]' %
+           (bad.tags().count('DROP'), '; '.join(('' if pol else '!') + ir.show(c)[:50] for c, pol, _ in bad.conds
+                                                if not isinstance(c, tuple))[:200]),
+           key='E2n|Chain_matrix::_remove_last|position-dictionary')
